@@ -97,7 +97,7 @@ def dcmp (a b : DV) : Int :=
 theorem less_iff_dcmp (a b : DV) : less a b = true ↔ dcmp a b < 0 := by
   unfold less dcmp
   cases a.sv <;> cases b.sv <;> simp
-  split <;> simp [thenInt]
+  split <;> rename_i heq <;> simp [thenInt, heq]
   split <;> simp_all
 
 theorem less_eq_dcmp (a b : DV) : less a b = decide (dcmp a b < 0) := by
